@@ -892,7 +892,7 @@ def replay_c21(path):
 # ---------------------------------------------------------------------------------------------
 C18_AS_IMPL = ["DurableIndexNeverLowered", "PendingMaxNotLowered"]
 C18_TIER = {
-    "quick": dict(MaxIdx=4, MaxTerm=3, MaxOps=4, file_sample=0, rocksdb_sample=50),
+    "quick": dict(MaxIdx=4, MaxTerm=3, MaxOps=3, file_sample=0, rocksdb_sample=50),
     "thorough": dict(MaxIdx=4, MaxTerm=3, MaxOps=5, file_sample=0, rocksdb_sample=1200),
 }
 C18_INV = ["C18_GapFree", "C18_DurableKept", "C18_FlushKept", "C18_NoResurrection"]
